@@ -15,8 +15,9 @@ os.environ.setdefault("OMP_NUM_THREADS", "1")
 os.environ.setdefault("OPENBLAS_NUM_THREADS", "1")
 os.environ["PYTHONDONTWRITEBYTECODE"] = "1"
 sys.dont_write_bytecode = True
-if "/repo" not in sys.path:
-    sys.path.insert(0, "/repo")
+REPO = os.environ.get("PV_REPO", "/repo")       # the tree under test (default: /repo's working tree)
+if REPO not in sys.path:
+    sys.path.insert(0, REPO)
 
 import warnings  # noqa: E402
 
